@@ -336,7 +336,7 @@ func run(c *runner.Ctx) {
 			})
 		}
 	}
-	n1, n2 := 8, 4
+	n1, n2 := 9, 5
 	if c.Thorough() {
 		n1, n2 = 10, 6
 	}
